@@ -54,6 +54,8 @@ func (t *Queue[T]) Add(value T, scheduledTime time.Time) (addedElement *QueueEle
 		return nil
 	}
 
+	verifYield("add-after-shutdown-check")
+
 	// acquire locks
 	t.heapMutex.Lock()
 
@@ -181,6 +183,8 @@ func (t *Queue[T]) Poll(waitIfEmpty bool) T {
 		polledElement := heap.Pop(&t.heap).(*generalheap.HeapElement[HeapKey, *QueueElement[T]])
 		// release locks
 		t.heapMutex.Unlock()
+
+		verifYield("poll-after-pop")
 
 		timer := time.NewTimer(time.Until(time.Time(polledElement.Key)))
 
